@@ -10,12 +10,17 @@ from ..models import KEYS
 from ..observe import observe, fresh
 from ..refs import components
 
-TIERS = {"quick": 1000, "thorough": 15000}
+N_RANDOM = {"quick": 1000, "thorough": 15000}
+N_EXH = 2 ** 15  # every hypergraph on 4 fixed nodes (all 32768 sets of non-empty hyperedges), thorough tier only
+TIERS = {"quick": N_RANDOM["quick"], "thorough": N_RANDOM["thorough"] + N_EXH}
+EXHAUSTIVE = {"quick": False, "thorough": True}
 WATCHDOG_S = {"quick": 900, "thorough": 7200}
 RULE = ("one case = one generated container (3 of 4 cases a Hypergraph on 1-9 nodes with hyperedge sizes 1-5, forced isolated "
         "nodes and singleton hyperedges, all label universes; every 4th case the end state of a D/T/M history, degrees only) "
         "x every filter (none, size 0..max+1, order -1..max) x every node, through module functions and methods. "
-        "non-trivial = >=2 hyperedges and >=2 distinct sizes or an isolated node; distinct = by abstract state")
+        "non-trivial = >=2 hyperedges and >=2 distinct sizes or an isolated node; distinct = by abstract state. The thorough "
+        "tier additionally enumerates EVERY hypergraph on the 4 nodes {10, 20, 40, 41} (all 2^15 sets of non-empty hyperedges; "
+        "exhaustive for that sub-space)")
 DECIDING = ["C08:degree", "C08:components"]
 ASSUMPTIONS = ["reference components by union-find over the filtered hyperedges of size >= 2 (hgxmon/refs.py)"]
 
@@ -54,6 +59,21 @@ def run_case(ctx, rng, idx):
     from hypergraphx.measures import degree as dm
     from hypergraphx.utils import cc
 
+    if idx >= N_RANDOM[ctx.tier]:
+        import itertools
+        import hypergraphx as hgx
+
+        mask = idx - N_RANDOM[ctx.tier]
+        nodes = [10, 20, 40, 41]
+        poss = [c for r in range(1, 5) for c in itertools.combinations(nodes, r)]
+        h = hgx.Hypergraph()
+        h.add_nodes(nodes)
+        for i, e in enumerate(poss):
+            if mask >> i & 1:
+                h.add_edge(e)
+        ctx.event("exhaustive-4-node-hypergraph")
+        evaluate(ctx, rng, idx, h, "H", ":exhaustive")
+        return
     if idx % 4 == 3:
         kind = "HDTM"[(idx // 4) % 4]
         cfg = history.Cfg(rng, kind)
